@@ -1069,18 +1069,26 @@ class RRSLRecord:
 
         self._initialized = True
 
-    def add_component(self, symlink_comp):
-        # type: (bytes) -> None
+    def add_component(self, symlink_comp, literal=False):
+        # type: (bytes, bool) -> None
         """
         Add a new component to this symlink record.
 
         Parameters:
          symlink_comp - The string to add to this symlink record.
+         literal - Whether the string is (a piece of) an ordinary name, to be
+                   stored as data even if it reads '.' or '..'.
         Returns:
          Nothing.
         """
         if not self._initialized:
             raise pycdlibexception.PyCdlibInternalError('SL record not initialized')
+
+        if literal:
+            if self.current_length() + 2 + len(symlink_comp) > 255:
+                raise pycdlibexception.PyCdlibInvalidInput('Symlink would be longer than 255')
+            self.symlink_components.append(self.Component(0, len(symlink_comp), symlink_comp))
+            return
 
         if (self.current_length() + RRSLRecord.Component.length(symlink_comp)) > 255:
             raise pycdlibexception.PyCdlibInvalidInput('Symlink would be longer than 255')
@@ -1100,11 +1108,11 @@ class RRSLRecord:
         if not self._initialized:
             raise pycdlibexception.PyCdlibInternalError('SL record not initialized')
 
-        strlist = []
+        length = RRSLRecord.header_length()
         for comp in self.symlink_components:
-            strlist.append(comp.name())
+            length += 2 + comp.curr_length
 
-        return RRSLRecord.length(strlist)
+        return length
 
     def record(self):
         # type: () -> bytes
@@ -2827,7 +2835,9 @@ class RockRidge:
                     length = 0
                     compslice = comp
                 else:
-                    complen = RRSLRecord.Component.length(comp[offset:])
+                    # A piece of an ordinary name is stored as data even if
+                    # the piece itself reads '.' or '..'.
+                    complen = 2 + len(comp) - offset
                     # 'length' is the number of data bytes of this component
                     # that go into the current SL record; the two-byte
                     # component header is accounted separately below.
@@ -2837,13 +2847,13 @@ class RockRidge:
                         length = complen - 2
                     compslice = comp[offset:offset + length]
 
-                curr_sl.add_component(compslice)
+                curr_sl.add_component(compslice, not special)
 
                 if sl_in_dr:
-                    curr_dr_len += RRSLRecord.Component.length(compslice)
+                    curr_dr_len += 2 + length
                 else:
                     if self.dr_entries.ce_record is not None:
-                        self.dr_entries.ce_record.add_record(RRSLRecord.Component.length(compslice))
+                        self.dr_entries.ce_record.add_record(2 + length)
 
                 offset += length
 
